@@ -98,6 +98,14 @@ Utf8Check(s) ==
 
 IsUtf8(s) == Utf8Check(s).ok
 
+\* String::from_utf8_lossy: every maximal invalid part (error_len bytes; the whole rest if the input ends
+\* inside a sequence) becomes one U+FFFD.  Recursion depth = number of invalid parts.
+RECURSIVE Lossy(_)
+Lossy(s) == LET u == Utf8Check(s) IN
+            IF u.ok THEN s
+            ELSE Slice(s, 1, u.upto) \o <<239, 191, 189>>
+                 \o (IF u.elen = 0 THEN <<>> ELSE Lossy(Slice(s, u.upto + u.elen + 1, Len(s))))
+
 (***************************************************************************)
 (* str::trim: removes leading and trailing scalar values with the Unicode  *)
 (* White_Space property, here recognised in their UTF-8 encodings.  Only   *)
